@@ -51,6 +51,10 @@ def run(F, rep, tier):
     c07.visit_loops_complete(F, rep)
     names_unused(F, rep)
     duplicates(F, rep)
+    # `a use outside the declaring scope .. is rejected`: what the resolver finds wrong reaches its caller - no Result of a
+    # visiting function is dropped or turned into a plain value
+    import tc
+    tc.dropped_results(F, rep, "DROPPED-ERROR", ["sylt_compiler::name_resolution::"])
 
 
 def scope_rules(F, rep, rule):
